@@ -167,7 +167,8 @@ def audit(prop: str) -> tuple[bool, list[dict], str]:
     thms: list[dict] = []
     ok = r.returncode == 0
     # "'Foo.bar' depends on axioms: [propext, Quot.sound]"  |  "'Foo.bar' does not depend on any axioms"
-    for m in re.finditer(r"'([^']+)' (?:depends on axioms: \[([^\]]*)\]|does not depend on any axioms)", out, re.S):
+    # (a theorem name may itself end in primes: `'Foo.bar'' depends on …`)
+    for m in re.finditer(r"'([^'\s]+'*)' (?:depends on axioms: \[([^\]]*)\]|does not depend on any axioms)", out, re.S):
         axs = [a.strip() for a in (m.group(2) or '').replace('\n', ' ').split(',') if a.strip()]
         thms.append({'theorem': m.group(1), 'axioms': axs})
         if not set(axs) <= ALLOWED_AXIOMS:
